@@ -26,7 +26,9 @@
             filter_by.collect_generation_meta() and update_self_config() on a dataset obtained from
             from_config / generate, and a copying filter) -> hash / file name again, compared with a
             FRESHLY constructed config holding the edited content and with load(serialize()) of the edited
-            object (ConfigId!ESpec / HashFollowsInv at design level; variant "memo_hash" rejected)
+            object (ConfigId!ESpec / HashFollowsInv at design level; variant "memo_hash" rejected); the same edit made on a COPY of the hashed
+            object (copy.deepcopy / dataclasses.replace / the config loaded back from JSON): the copy's identity follows the copy's content, the
+            original's identity stays; collections: the same member object listed twice and edited once, dropping every member
 
 Interpretation decisions
   * to_fname prints hash mod 10^5 as a number (no zero padding) -- DESIGN.md section 4.
@@ -46,6 +48,22 @@ Interpretation decisions
   * the statement's file-name sentence (grid size, generator) cannot apply to a collection of configs:
     "collected-<name>-n<total count>-h<hash mod 10^5>" is judged as model conformance (Layer M) only.
   * dict key order is not varied (Python's == ignores it, the JSON text does not).
+  * falsy values are ordinary values of every field (audit 2, CLASS C): name "", grid_n 0, n_mazes 0, seed 0, seq_len_min / max 0, kwargs / endpoint
+    options / filter arguments holding 0, 0.0, False, None, "", [] and the collection without members are enumerated, round-tripped, put on the
+    one-field lines and assigned in place in the histories.  No pair of options differs ONLY by 0 vs False (Python's == identifies them; the
+    int / float pairs 1 vs 1.0, 0 vs 0.0 are kept: the serialized content differs).
+  * memory (CLASS E): the statement promises an EQUAL loaded config, not an independent one -- in the unchanged library serialize() returns the
+    config's own dicts and load() keeps the maze_ctor_kwargs dict of its argument (notes.outside_scope_observations.memory_shared_...).  Judged:
+    the comparison of the loaded config is made against a deep snapshot taken BEFORE serialize() and, through the library's ==, against the
+    live object (Layer P); "serialize / load / hashing left their operands unchanged" is Layer M (M:original_modified_by_round_trip,
+    M:load_modified_its_argument, M:original_modified_by_hashing).
+  * other representations of the same value (CLASS G: coordinates as lists of lists / tuple of tuples / ndarray, filter args as a list, numpy
+    or float-valued ints) are outside ConfigId!WF and the type hints; observed in notes.outside_scope_observations, not judged.  grid_n is one
+    int (always square): CLASS D does not apply; there are no solutions / tokens at this level: CLASS H reduces to the empty option dicts /
+    filter lists / collections, which are enumerated with every option family.
+  * harness guards ("H:" clauses) are never violations: _judge routes them away from Check.violation, _settle_guards decides once after the
+    last batch -- exit 1 when the run has Layer-P violations (guards noted), exit 2 when guards fired alone.  The oracle evaluates a Layer-P
+    clause only on the part of a record its guards vouch for (exact-verdict synthetic records in _exact()).
   * n_mazes is excluded from the library's == (compare=False); the raw field comparison includes it.
 """
 import concurrent.futures as cf
@@ -1077,7 +1095,8 @@ def main(chk: lib.Check) -> int:
     chk.rule = (
         "cases = requested configs: (i) the full cross product of 2 names x 2 grids x 2 counts x 2 seeds x every registered generator x its first 2 (thorough 3) "
         "kwargs x 4 (6) endpoint options x 3 (5) filter lists; (ii) 'lines': for 5 default + N seeded random base configs and each of the 8 fields, the base "
-        "with that field replaced by every listed option (6 names, 10 grids, 30 counts, 6 seeds, compatible generators, 1-16 kwargs, 22 endpoint options, 18 filter lists); "
+        "with that field replaced by every listed option (7 names, 11 grids, 31 counts, 6 seeds, compatible generators, 1-23 kwargs, 28 endpoint options, 26 filter lists; "
+        "every list contains the field's falsy-but-meaningful values: empty name, 0 x 0 grid, 0 mazes, seed 0, 0 / 0.0 / None / False / '' / [] inside kwargs, endpoint options and filter arguments); "
         "each config: hash + file name (+ twin, + 3 other processes), both round trips; non-trivial = a config with a non-default generator, kwargs, endpoint options or filters"
     )
     # ---- (A) design level
@@ -1093,7 +1112,7 @@ def main(chk: lib.Check) -> int:
     chk.add_model("ConfigId/memo_hash", r, "hash cached on the object without invalidation: TLC rejects HashFollowsInv (non-vacuity)")
     if thorough:
         r = lib.tlc_design("ConfigId", "ConfigId_full.cfg", expect_actions=["Vary"], tag="f")
-        chk.add_model("ConfigId/full", r, "12960 configs (5 kwargs x 9 endpoint options x 6 filter lists) x every one-field variant")
+        chk.add_model("ConfigId/full", r, "18144 configs (6 kwargs x 9 endpoint options x 7 filter lists, incl. falsy values 0 / 0.0 / False / None / [] ) x every one-field variant")
 
     # ---- (C) the library
     try:
